@@ -48,12 +48,15 @@ class C01(Prop):
     def check(self, case):
         res = Result()
         d, s, xs = case["draft"], case["schema"], list(case["instances"])
+        if case.get("probes"):
+            xs += GI.probes(s, case["probes"])
         if case.get("alias"):
             pool = {}
             s, xs = impl.alias_equal(s, pool), [impl.alias_equal(x, pool) for x in xs]     # schema and instances share parts
+            # and containers that hold the very same object twice: [x, x], {"a": x, "b": x}
+            twice = [x for x in xs if isinstance(x, (dict, list)) and x][:6]
+            xs += [[x, x] for x in twice] + [{"a": x, "b": x, "k": [x]} for x in twice[:3]]
             res.labels.append("aliased")
-        if case.get("probes"):
-            xs += GI.probes(s, case["probes"])
         cls = impl.CLS[d]
         res.evals = 0
         if walk.has_ref(d, s):
